@@ -176,6 +176,15 @@ type Times struct {
 	N   int64          `parquet:"n"`
 }
 
+// SliceDecimals: []byte fields mapped to FIXED_LEN_BYTE_ARRAY columns by a
+// decimal tag (the typed path copies them through a pooled scratch buffer; nil
+// slices stand for the zero value).
+type SliceDecimals struct {
+	N  int32  `parquet:"n"`
+	D  []byte `parquet:"d,decimal(2:29)"`
+	D2 []byte `parquet:"d2,decimal(0:9)"`
+}
+
 type Deep struct {
 	A []struct {
 		B []struct {
@@ -636,4 +645,5 @@ func init() {
 	register[DictLists]("DictLists")
 	register[Embedded]("Embedded")
 	register[Times]("Times")
+	register[SliceDecimals]("SliceDecimals")
 }
